@@ -14,6 +14,8 @@ int mode (Gen.C05.*)
   boxX0 boxY0                           lower bounds of `box = slice(int(xmin), …)` in result_to_components
   subXoVal subXoMin subXoMax subYo…     right-hand sides of `params[prefix+"xo"].value/min/max -= xmin` (and yo/ymin)
   varyAmp varyXo varyYo varySx varySy varyTheta varyFlags     the `vary=` keyword of each `params.add(prefix + name, …)`
+  rejectSrc                             the per-source acceptance test (`if …: continue`), temporaries and straight-line boolean
+                                        helpers inlined, image / rms / beam look-ups as opaque atoms
   copyPosErr copyShapeErr               the tests guarding `ns.err_ra = s.err_ra` and `ns.err_a = s.err_a`
   clipXLo clipXHi clipYLo clipYHi        the interval each axis of the 3x3 "has data" box is clipped to (np.clip bounds)
 real mode
@@ -50,6 +52,38 @@ def _with_bool(orig):
 
 if not getattr(py2lean.Translator.expr_int, '_c05_bool', False):
     py2lean.Translator.expr_int = _with_bool(py2lean.Translator.expr_int)
+
+
+def _with_logic(orig):
+    """for C05's acceptance decision only (recognised by its parameter `data_finite`): `not e`, chained comparisons
+    `a <= b < c` (= `a <= b and b < c`; the operands are plain names / literals / shape entries, so evaluating the middle
+    one twice is harmless) and Bool literals, all as decidable propositions"""
+    def expr_int(self, node):
+        if 'data_finite' in self.params:
+            if isinstance(node, ast.Constant) and isinstance(node.value, bool):
+                return ('True' if node.value else 'False'), 'B', set()
+            if isinstance(node, ast.UnaryOp) and isinstance(node.op, ast.Not):
+                c, t, d = self.expr(node.operand)
+                if t != 'B':
+                    raise py2lean.Untranslatable("not of a non-boolean")
+                return f"(¬ {c})", 'B', d
+            if isinstance(node, ast.Compare) and len(node.ops) > 1:
+                if not all(isinstance(e, (ast.Name, ast.Constant, ast.Subscript)) for e in [node.left] + node.comparators):
+                    raise py2lean.Untranslatable("chained comparison of compound operands")
+                parts, deps, left = [], set(), node.left
+                for op, right in zip(node.ops, node.comparators):
+                    c, t, d = self.expr(ast.Compare(left=left, ops=[op], comparators=[right]))
+                    parts.append(c)
+                    deps |= d
+                    left = right
+                return "(" + " ∧ ".join(parts) + ")", 'B', deps
+        return orig(self, node)
+    expr_int._c05_logic = True
+    return expr_int
+
+
+if not getattr(py2lean.Translator.expr_int, '_c05_logic', False):
+    py2lean.Translator.expr_int = _with_logic(py2lean.Translator.expr_int)
 
 
 # ---- slicing -----------------------------------------------------------------------------------------
@@ -90,13 +124,18 @@ class _Subst(ast.NodeTransformer):
         return node
 
 
+def _is_shape(node):
+    u = ast.unparse(node)
+    return u in ('shape', 'data.shape') or u.endswith('.img.shape')
+
+
 def _shape_aliases(fn):
     """`nx, ny = shape` (or `= data.shape`): names that are nothing but shape[0], shape[1]"""
     al = {}
     for n in ast.walk(fn):
         if isinstance(n, ast.Assign) and len(n.targets) == 1 and isinstance(n.targets[0], ast.Tuple) \
                 and len(n.targets[0].elts) == 2 and all(isinstance(e, ast.Name) for e in n.targets[0].elts) \
-                and ast.unparse(n.value) in ('shape', 'data.shape'):
+                and _is_shape(n.value):
             a, b = (e.id for e in n.targets[0].elts)
             if a not in ('xmin', 'ymin', 'xmax', 'ymax') and b not in ('xmin', 'ymin', 'xmax', 'ymax'):
                 al[a] = ast.parse('shape[0]', mode='eval').body
@@ -188,6 +227,132 @@ def _bind_call(call, fn):
             return None
         b[k.arg] = k.value
     return b
+
+
+def _nz(name, eq=False):
+    return ast.Compare(left=ast.Name(id=name, ctx=ast.Load()), ops=[ast.Eq() if eq else ast.NotEq()],
+                       comparators=[ast.Constant(value=0)])
+
+
+class _Atoms(ast.NodeTransformer):
+    """what the acceptance test reads from outside becomes an opaque atom; everything unrecognised is left alone (and
+    then stops the translation)"""
+    def visit_Call(self, node):
+        self.generic_visit(node)
+        f = ast.unparse(node.func)
+        if f == 'bool' and len(node.args) == 1 and not node.keywords:
+            return node.args[0]
+        if f in ('np.isfinite', 'numpy.isfinite', 'math.isfinite') and len(node.args) == 1 \
+                and isinstance(node.args[0], ast.Subscript) and isinstance(node.args[0].slice, ast.Tuple) \
+                and [ast.unparse(e) for e in node.args[0].slice.elts] == ['x', 'y']:
+            arr = ast.unparse(node.args[0].value)
+            if arr == 'rmsimg' or arr.endswith('.rmsimg'):
+                return _nz('rms_finite')
+            if arr == 'data' or arr.endswith('.img'):
+                return _nz('data_finite')
+        return node
+
+    def visit_Compare(self, node):
+        self.generic_visit(node)
+        if len(node.ops) == 1 and ast.unparse(node.left) == 'pixbeam' and isinstance(node.comparators[0], ast.Constant) \
+                and node.comparators[0].value is None:
+            if isinstance(node.ops[0], ast.Is):
+                return _nz('beam_none')
+            if isinstance(node.ops[0], ast.IsNot):
+                return _nz('beam_none', eq=True)
+        return node
+
+    def visit_Subscript(self, node):
+        self.generic_visit(node)
+        if _is_shape(node.value) and isinstance(node.slice, ast.Constant) and node.slice.value in (0, 1):
+            return ast.parse(f'shape[{node.slice.value}]', mode='eval').body
+        return node
+
+
+def _bool_fn_to_expr(fn):
+    """a straight-line boolean helper — plain-name assignments, `a, b = <shape>`, guard clauses `if c: return e`
+    (with optional else-return), a final `return e`, docstring / logging calls — as ONE expression; raises otherwise"""
+    import copy as _c
+    env = {}
+
+    def sub(e):
+        return _Subst(env).visit(_c.deepcopy(e))
+
+    def block(stmts):
+        if not stmts:
+            raise ValueError('falls off the end')
+        st, rest = stmts[0], stmts[1:]
+        if isinstance(st, ast.Expr) and (isinstance(st.value, ast.Constant) or
+                                         (isinstance(st.value, ast.Call) and '.log.' in ast.unparse(st.value.func) + '.')):
+            return block(rest)
+        if isinstance(st, ast.Return) and st.value is not None:
+            return sub(st.value)
+        if isinstance(st, ast.Assign) and len(st.targets) == 1:
+            tg = st.targets[0]
+            if isinstance(tg, ast.Name):
+                env[tg.id] = sub(st.value)
+                return block(rest)
+            if isinstance(tg, ast.Tuple) and len(tg.elts) == 2 and all(isinstance(e, ast.Name) for e in tg.elts) \
+                    and _is_shape(st.value):
+                env[tg.elts[0].id] = ast.parse('shape[0]', mode='eval').body
+                env[tg.elts[1].id] = ast.parse('shape[1]', mode='eval').body
+                return block(rest)
+        if isinstance(st, ast.If):
+            c = sub(st.test)
+            saved = dict(env)
+            a = block(st.body)                       # must end in a return
+            env.clear()
+            env.update(saved)
+            b = block(st.orelse) if st.orelse else block(rest)
+            # (c and a) or (not c and b)
+            return ast.BoolOp(op=ast.Or(), values=[ast.BoolOp(op=ast.And(), values=[c, a]),
+                                                    ast.BoolOp(op=ast.And(), values=[ast.UnaryOp(op=ast.Not(), operand=_c.deepcopy(c)), b])])
+        raise ValueError('statement outside the straight-line boolean subset: ' + type(st).__name__)
+    return block(list(fn.body))
+
+
+def _accept_test(tree, refit):
+    """the test of the first `if …: … continue` in the per-source loop of _refit_islands, as one closed expression
+    over x, y, shape[0], shape[1] and the three atoms"""
+    import copy as _c
+    loop = [n for n in ast.walk(refit) if isinstance(n, ast.For) and ast.unparse(n.iter) == 'isle'][0]
+    idx = [k for k, st in enumerate(loop.body) if isinstance(st, ast.If)
+           and any(isinstance(m, ast.Continue) for b in st.body for m in ast.walk(b))][0]
+    test = _c.deepcopy(loop.body[idx].test)
+    # plain-name boolean temporaries assigned (once) earlier in the same block, innermost last
+    for _ in range(8):
+        names = {m.id for m in ast.walk(test) if isinstance(m, ast.Name)} - {'x', 'y', 'shape', 'data', 'rmsimg', 'pixbeam', 'np', 'self'}
+        env = {}
+        for st in loop.body[:idx]:
+            if isinstance(st, ast.Assign) and len(st.targets) == 1 and isinstance(st.targets[0], ast.Name) \
+                    and st.targets[0].id in names:
+                env[st.targets[0].id] = st.value
+        if not env:
+            break
+        test = _Subst(env).visit(test)
+    # straight-line boolean helpers of the class, called as self.<name>(…)
+    for _ in range(4):
+        calls = [m for m in ast.walk(test) if isinstance(m, ast.Call) and isinstance(m.func, ast.Attribute)
+                 and isinstance(m.func.value, ast.Name) and m.func.value.id == 'self']
+        if not calls:
+            break
+        call = calls[0]
+        fn = [f for f in ast.walk(tree) if isinstance(f, ast.FunctionDef) and f.name == call.func.attr][0]
+        bind = _bind_call(call, fn)
+        if bind is None or not all(isinstance(v, ast.Name) for v in bind.values()):
+            raise ValueError('helper call with compound arguments')
+        body = _Subst(bind).visit(_bool_fn_to_expr(fn))
+
+        class _R(ast.NodeTransformer):
+            def visit_Call(self, node):
+                return body if node is call else self.generic_visit(node)
+        test = _R().visit(test)
+    test = _Atoms().visit(test)
+    ast.fix_missing_locations(test)
+    left = {m.id for m in ast.walk(test) if isinstance(m, ast.Name)} - {'x', 'y', 'shape', 'data_finite', 'rms_finite', 'beam_none'}
+    if left:
+        raise ValueError(f'unresolved names {left}')
+    return test
 
 
 def _slice(repo):
@@ -412,6 +577,16 @@ def _slice(repo):
     except Exception:  # noqa: BLE001
         pass
 
+    # 7. the per-source acceptance test: the `if <test>: … continue` at the head of the `for src in isle` loop, with plain
+    #    boolean temporaries and straight-line boolean helpers (guard clauses, `return`) inlined, and the three things it
+    #    reads from outside reduced to opaque atoms: np.isfinite(data[x, y]) -> data_finite != 0,
+    #    np.isfinite(rmsimg[x, y]) -> rms_finite != 0, `pixbeam is None` -> beam_none != 0
+    try:
+        out.append(_mkfun('c05_accept', ['x', 'y', 'shape0', 'shape1', 'data_finite', 'rms_finite', 'beam_none'],
+                          [_assign('reject', _accept_test(tree, refit))]))
+    except Exception:  # noqa: BLE001
+        pass
+
     mod = ast.Module(body=out, type_ignores=[])
     ast.fix_missing_locations(mod)
     return ast.unparse(mod) + "\n"
@@ -512,6 +687,13 @@ TARGETS = [
          fallback={'boxLoX': _fbR('boxLoX', 'cx - R.ofNat 1', ['cx', 'cy']), 'boxHiX': _fbR('boxHiX', 'cx + R.ofNat 2', ['cx', 'cy']),
                    'boxLoY': _fbR('boxLoY', 'cy - R.ofNat 1', ['cx', 'cy']), 'boxHiY': _fbR('boxHiY', 'cy + R.ofNat 2', ['cx', 'cy'])},
          all_params=['cx', 'cy']),
+    dict(file=_SL, func='c05_accept', mode='int',
+         params={'x': 'Z', 'y': 'Z', 'shape0': 'N', 'shape1': 'N', 'data_finite': 'N', 'rms_finite': 'N', 'beam_none': 'N'},
+         subst={'shape[0]': 'shape0', 'shape[1]': 'shape1'},
+         outputs=[('reject', 'rejectSrc')],
+         fallback={'rejectSrc': 'def rejectSrc (x y : Int) (shape0 shape1 data_finite rms_finite beam_none : Nat) : Bool := '
+                                f'{_H}.rejectSrcHand x y shape0 shape1 data_finite rms_finite beam_none'},
+         all_params=['x', 'y', 'shape0', 'shape1', 'data_finite', 'rms_finite', 'beam_none']),
     dict(file=_SL, func='c05_local', mode='real', params={p: 'A' for p in _P4}, subst={},
          outputs=[('xo_local', 'xoLocal'), ('yo_local', 'yoLocal')],
          fallback={'xoLocal': _fbR('xoLocal', 'xo - xmin', _P4), 'yoLocal': _fbR('yoLocal', 'yo - ymin', _P4)},
